@@ -142,10 +142,14 @@ class UnivFact:
 def trigger_decls(body):
     """Unary uninterpreted functions applied directly to the bound variable: the instantiation triggers."""
     probe = z3.Int("probe!trigger")
+    saved = {k: dict(v) for k, v in V.APPS.items()}
     try:
         t = body(probe)
     except Exception:  # noqa: BLE001
         return []
+    finally:
+        V.APPS.clear()
+        V.APPS.update(saved)
     out = {}
     stack = [t]
     seen = set()
